@@ -751,6 +751,12 @@ def check(fx, rep, tier):
     check_r061(fx, Re(rep, "R07.4"))
     # every instruction result of up to `limit` nodes is kept (cull comparison is `>`), so it still denotes the EVM result
     check_r184(fx, Re(rep, "R07.2"))
+    # the machine folds constants itself (memory offsets, jump targets): the folder must compute what the EVM computes (C09);
+    # and a path ends exactly where the EVM ends it - after a halting, failing or tolerated-failing instruction (C08 R08.3)
+    from .. import core as _core
+
+    _core.import_rules(rep, fx, "C09", "R07.2", floor=100, what="constant-folding obligations (C09) behind offsets and targets the machine folds itself")
+    _core.import_rules(rep, fx, "C08", "R07.4", only_rules=("R08.3",), floor=50, what="path-ending obligations (C08 R08.3)")
     rep.exhaustive = True
     return rep.finish(
         "Structural translation audit of the opcode implementations against independent EVM tables: stack effect of every implementation (all successful paths, counted loops, delegation) "
